@@ -191,7 +191,8 @@ SPEC = {
     "trusted_base": [
         "Model/Request.v PART 2 (parse_frame / p_request) is the specification: transcribed by hand from the CQL binary protocol v4 document sections 2, 3, 4.1.1-4.1.8, 5 and ScyllaDB's result-metadata-id extension of EXECUTE",
         "strings are modelled as their UTF-8 bytes (validity is a Rust type invariant, not modelled)",
-        "no hook: the runner uses only public items of scylla-cql (request structs, SerializedRequest::make, decompress, SerializedValues::from_closure, RawBatchValues)",
+        "no hook: the runner uses only public items of scylla-cql / scylla (request structs, SerializedRequest::make / set_stream, decompress, SerializedValues::from_closure / from_serializable, RawBatchValues, RawBatchValuesAdapter, the built-in SerializeRow impls, SessionBuilder / Session)",
+        "vh::mocknode captures the frames of the e2e kind (its own frame reader); harness/src/c09_e2e.rs states what a Session call is expected to ask for",
     ],
     "assumptions": [
         "codec_ok cd (LZ4/Snappy: decompress (compress b) = b) is an explicit premise of C09_compressed; the tie validates it on every compressed case by running the real decompress on the real compressed body",
